@@ -64,7 +64,8 @@ def astFacts : List (String × Nat) := [
   ("countedUnderLock", Generated.countedUnderLock),
   ("shutdownFlagUnderLock", Generated.shutdownFlagUnderLock),
   ("dedupAtomic", Generated.dedupAtomic),
-  ("tickerPeriodIsRetry", Generated.tickerPeriodIsRetry)]
+  ("tickerPeriodIsRetry", Generated.tickerPeriodIsRetry),
+  ("activeAddBeforeGo", Generated.activeAddBeforeGo)]
 
 def main : IO Unit := do
   for (n, g, e) in setFacts do
